@@ -32,6 +32,7 @@ import (
 	"errors"
 	"fmt"
 	"net/http"
+	"os"
 	"sort"
 	"strings"
 	"sync"
@@ -76,6 +77,31 @@ type c13bPlan struct {
 var c13bChans = []string{"A", "B", "C"}
 
 func init() {
+	// C01B: the continuous half of these runs, judged for C01 ("a continuous request eventually delivers every such
+	// change", removal notices included): the same oracle, reported under C01
+	verifsim.Register(&verifsim.Property{
+		ID: "C01B",
+		Generate: func(seed uint64, tier string, index int) json.RawMessage {
+			var p c13bPlan
+			_ = json.Unmarshal(c13bGenerate(seed, tier, index), &p)
+			p.Continuous = true
+			return mustJSON(p)
+		},
+		Config: func(p json.RawMessage) verifsim.Config {
+			var pl c13bPlan
+			_ = json.Unmarshal(p, &pl)
+			return pl.Cfg
+		},
+		Run: func(env *verifsim.Env, raw json.RawMessage) *verifsim.Violation {
+			v := c13bRun(env, raw)
+			if v != nil {
+				v.Property = "C01"
+				v.Clause = "continuous-" + v.Clause
+			}
+			return v
+		},
+		Shrink: c13bShrink,
+	})
 	verifsim.Register(&verifsim.Property{
 		ID:       "C13B",
 		Generate: c13bGenerate,
@@ -154,10 +180,15 @@ func c13bGenerate(seed uint64, tier string, index int) json.RawMessage {
 		d := r.Intn(4)
 		p.Rounds = [][][]c13bOp{
 			{{{Kind: "user", Name: "alice", Chans: two}, {Kind: "doc", Doc: d, Chans: two}}},
-			{{{Kind: "user", Name: "alice", Chans: two[:1]}}, {{Kind: "doc", Doc: (d + 1) % 4, Chans: two[:1]}}},
-			{{{Kind: "doc", Doc: d, Chans: two[1:]}}, {{Kind: "doc", Doc: (d + 2) % 4, Chans: two[:1]}}},
+			{{{Kind: "user", Name: "alice", Chans: two[:1]}}},
+			{{{Kind: "doc", Doc: d, Chans: two[1:]}}},
 		}
 		p.Batch = []int{200, 200, 200}
+		if r.Chance(400) {
+			// sometimes other documents are written as well (a batch that goes out in between refreshes the connection's user)
+			p.Rounds[1] = append(p.Rounds[1], []c13bOp{{Kind: "doc", Doc: (d + 1) % 4, Chans: two[:1]}})
+			p.Rounds[2] = append(p.Rounds[2], []c13bOp{{Kind: "doc", Doc: (d + 2) % 4, Chans: two[:1]}})
+		}
 	}
 	return mustJSON(p)
 }
@@ -500,6 +531,9 @@ func c13bRun(env *verifsim.Env, raw json.RawMessage) *verifsim.Violation {
 					stable = 0
 				}
 			}
+			if os.Getenv("VERIF_C13B_EXTRA_WAIT") != "" {
+				_ = s.Settle(30*time.Second, 500*time.Millisecond)
+			}
 			if stable < 3 {
 				return verifsim.Vf("C13", "pull-incomplete", "replication protocol: the continuous feed did not come to rest within 20 simulated seconds after round %d", rd)
 			}
@@ -621,6 +655,16 @@ func c13bRun(env *verifsim.Env, raw json.RawMessage) *verifsim.Violation {
 					got, ok := rep.m[id]
 					if !ok {
 						vio = verifsim.Vf("C13", pre+"not-backfilled", "replication protocol (%s replica): after pull %d the user can fetch %s (rev %s, user channels %s) but the client does not hold it (held %v; rows of this pull %v)", rep.name, rd, id, v.rev, chans, held(rep.m), rows)
+						// recorded finding (continuous subscriptions only; the same history pulled by one-shot requests is clean): one
+						// change of the user takes a channel away and gives another; the open feed sends the revocations of the lost
+						// channel and never back-fills the granted one
+						if p.Continuous {
+							for _, r := range rows {
+								if r.flags&2 != 0 {
+									vio.Key = "continuous-feed-grant-not-backfilled-when-the-same-change-revokes"
+								}
+							}
+						}
 						return
 					}
 					if got != v.rev && got != v.cv {
@@ -642,6 +686,18 @@ func c13bRun(env *verifsim.Env, raw json.RawMessage) *verifsim.Violation {
 						// entries, while no revocation is sent for a channel the user has again
 						if c13bRegranted(n, id, pullStart) {
 							vio.Key = "removal-suppressed-by-regrant-backfill"
+						}
+						// recorded finding (continuous subscriptions only; one-shot pulls of the same history are clean): the user
+						// loses a channel because the document that granted it is rewritten (sync-function grant); the open feed sends
+						// the granting document's new revision and no revocation (nor deletion) for what the user saw through the grant
+						if vio.Key == "" && p.Continuous {
+							for _, prog := range tasks {
+								for _, op := range prog {
+									if op.Kind == "grantdoc" {
+										vio.Key = "continuous-feed-loss-through-granting-document-not-announced"
+									}
+								}
+							}
 						}
 						return
 					}
@@ -673,7 +729,6 @@ func c13bRun(env *verifsim.Env, raw json.RawMessage) *verifsim.Violation {
 }
 
 var _ = simnet.AltSever
-
 
 // c13bRegranted reports whether the document left (or was deleted in) a channel that the user holds through a grant
 // issued after the position the pull started from.
